@@ -3,7 +3,7 @@ UNITS = ['u_script', 'u_list', 'u_jobs', 'u_tok', 'u_plan', 'u_exp1', 'u_calc', 
 
 PROPERTY_UNITS = {
     'C03': ['u_list', 'u_tok', 'u_fd'],
-    'C06': ['u_jobs', 'u_wait'],
+    'C06': ['u_jobs', 'u_wait', 'u_jcmd'],
     'C05': ['u_script', 'u_list', 'u_jobs', 'u_tok', 'u_plan', 'u_exp1', 'u_calc', 'u_exp2', 'u_wait', 'u_fd', 'u_env', 'u_args', 'u_proc', 'u_exp3', 'u_bfd', 'u_blt', 'u_jcmd', 'u_read', 'u_cmpl'],
     'C01': ['u_plan', 'u_exp1', 'u_exp2', 'u_exp3', 'u_tok', 'u_fd'],
     'C13': ['u_plan', 'u_exp1', 'u_exp2', 'u_exp3'],
@@ -17,7 +17,7 @@ PROPERTY_UNITS = {
     'C04': ['u_fd', 'u_plan', 'u_bfd', 'u_blt'],
     'C08': ['u_fd', 'u_bfd'],
     'C17': ['u_exp2'],
-    'C19': ['u_calc'],
+    'C19': ['u_calc', 'u_fd'],
 }
 from vx import kani_engine as _kani
 from vx import axcheck as _ax
